@@ -47,7 +47,7 @@ type c15Map struct {
 var c15ExactMaps = []c15Map{
 	{ivg.ViewBox{MinX: 0, MinY: 0, MaxX: 64, MaxY: 64}, image.Rect(0, 0, 64, 64)},
 	{ivg.ViewBox{MinX: -32, MinY: -32, MaxX: 32, MaxY: 32}, image.Rect(5, 9, 133, 41)}, // scale 2 and 1/2
-	{ivg.ViewBox{MinX: 8, MinY: -16, MaxX: 24, MaxY: 48}, image.Rect(0, 0, 64, 16)},   // scale 4 and 1/4
+	{ivg.ViewBox{MinX: 8, MinY: -16, MaxX: 24, MaxY: 48}, image.Rect(0, 0, 64, 16)},    // scale 4 and 1/4
 }
 
 // exact matrices (viewBox -> gradient): dyadic entries
@@ -70,13 +70,14 @@ var c15GenMats = [][6]float32{
 }
 
 type c15Case struct {
-	StopSet int  `json:"stopset"`
-	Spread  int  `json:"spread"`
-	Shape   int  `json:"shape"`
-	Exact   bool `json:"exact"`
-	Mat     int  `json:"matrix"`
-	Map     int  `json:"map"`
-	PX, PY  []int `json:"px_py,omitempty"` // restrict to one pixel on replay
+	StopSet int    `json:"stopset"`
+	Spread  int    `json:"spread"`
+	Shape   int    `json:"shape"`
+	Exact   bool   `json:"exact"`
+	Mat     int    `json:"matrix"`
+	Map     int    `json:"map"`
+	PX      []int  `json:"px,omitempty"` // restrict to one pixel on replay
+	PY      []int  `json:"py,omitempty"`
 	Desc    string `json:"desc,omitempty"`
 }
 
